@@ -20,7 +20,7 @@ CONSTANTS
   MaxStakeOps = 0
   MaxH = 8
   MaxJails = 2
-  MaxLevel = 12
+  MaxLevel = 11
   StakeVals = {1, 2}
   MaxOnChain = 2
   VersionsMC = {1}
